@@ -1,9 +1,11 @@
 (* C17 - executable model of the LLCP address table of nfc.llcp.llc.LogicalLinkController
    (src/nfc/llcp/llc.py, tco.py) and of two controllers joined by an in-order reliable link.
 
-   Faithful to the code as repaired by fixes/c17-*.diff:
+   Faithful to the code including the repairs of this property (fixes/c17-*.diff):
      - ServiceAccessPoint.remove_socket drops the service names of a SAP that becomes empty
      - _bind_by_name refuses a well-known name whose fixed address is occupied (EADDRINUSE)
+   and of C09/C10 in the same functions (close() of a socket whose SAP is gone is a plain close, accept() without
+   SAP raises EPIPE, SDRES only while 4 octets of MIU budget are left).
    Still as in the code: the 17th named bind raises EADDRNOTAVAIL (known finding).
 
    Scope / abstractions (each is checked by the correspondence run or stated as assumption):
@@ -365,7 +367,12 @@ Definition do_close (c : ctl) (i : nat) : R :=
           | Some s' => ok (sap_remove (put_sock c i s') a i) OUnit
           | None => ok (put_sock c i (sock_close_wait s)) OPending
           end
-        | _ => crash c AttributeErr          (* self.sap[addr] is None: None.remove_socket *)
+        | _ =>
+          (* the service access point is already gone (the socket was closed before): plain socket.close() *)
+          match sock_close s with
+          | Some s' => ok (put_sock c i s') OUnit
+          | None => ok (put_sock c i (sock_close_wait s)) OPending   (* unreachable: an open bound socket is in its SAP *)
+          end
         end
       end
     | _ => ok c OBusy
@@ -431,11 +438,13 @@ Definition do_accept (c : ctl) (i : nat) : R :=
             let cc := PCC ssap (match s_addr s with Some a => a | None => 0 end) in
             let c1 := put_sock c i (set_sendq (set_recvq s q) (s_sendq s ++ [cc])) in
             let c2 := set_socks c1 (c_socks c1 ++ [client]) in
+            (* "sap = None if client.addr is None else self.sap[client.addr]"; no SAP: the new socket is
+               closed and dropped, EPIPE (unreachable: a listening socket is in its SAP) *)
             match s_addr s with
-            | None => crash c2 TypeErr
+            | None => llerr c1 EPIPE
             | Some a => match sap_insert c2 a j TDlc with
                         | Some c3 => ok c3 (OSock j)
-                        | None => crash c2 AttributeErr
+                        | None => llerr c1 EPIPE
                         end
             end
           | _ :: q => (put_sock c i (set_recvq s q), Err RuntimeErr)
@@ -670,11 +679,11 @@ Fixpoint socks_dequeue (c : ctl) (l : list nat) (miu : Z) : option (pdu * ctl) :
     end
   end.
 
-(* "while miu_size > 0: sdres.popleft(); miu_size -= 4" *)
+(* "while miu_size >= 4: sdres.popleft(); miu_size -= 4" *)
 Fixpoint take_sdres (l : list (Z * Z)) (miu : Z) (acc : list (Z * Z)) : list (Z * Z) * list (Z * Z) * Z :=
   match l with
   | [] => (acc, [], miu)
-  | x :: t => if 0 <? miu then take_sdres t (miu - 4) (acc ++ [x]) else (acc, l, miu)
+  | x :: t => if 4 <=? miu then take_sdres t (miu - 4) (acc ++ [x]) else (acc, l, miu)
   end.
 (* "for i in range(len(sdreq)): fits -> take, else rotate(-1)" *)
 Fixpoint take_sdreq (n : nat) (q : list (Z * name)) (miu : Z) (acc : list (Z * name)) : list (Z * name) * list (Z * name) :=
